@@ -65,6 +65,7 @@ pub fn story_to_json_value(
             Value::Object(named_content)
         }
     ]);
+    check_story_paths(&root_value)?;
     compact_story_paths(&mut root_value);
 
     let mut output = serde_json::Map::new();
